@@ -72,9 +72,12 @@ def legit (w : World) (i : InstW) (op : PendingOp) : Bool × String :=
                    else match i.orphanTok with
                      | some t => s!"it did not lead when its stop call began; it holds the note of an acquired record it never claimed (token {t}, acknowledged after its run had ended) and the record changed hands since"
                      | none => "it did not lead when its stop call began"
+        -- (a stop call issues one Delete: a second one - a retry after an answer that did not come - is a history of its own,
+        --  not the known finding's)
+        let verb := if op.deleteNth ≥ 2 then s!"deletes again (Delete number {op.deleteNth} of its stop call)" else "deletes"
         match r.val with
-        | .own rid rtok _ => (r.writer == i.cfg.id && rid == i.cfg.id && rtok == i.lastOwnTok && inStop, s!"deletes a record it does not own (or outside its own graceful shutdown); {how}")
-        | _ => (false, s!"deletes a record it does not own; {how}")
+        | .own rid rtok _ => (r.writer == i.cfg.id && rid == i.cfg.id && rtok == i.lastOwnTok && inStop, s!"{verb} a record it does not own (or outside its own graceful shutdown); {how}")
+        | _ => (false, s!"{verb} a record it does not own; {how}")
     | _ => (true, "")
 
 /-- Is this update a refresh (same writer, same identity and token)? -/
@@ -371,8 +374,10 @@ def step (m : MState) (e : TEv) : MState :=
   | .call op i kind key exp val =>
     let stopDel := w0.apis.any fun a => a.inst == i && (match a.kind with | .stopctx d _ _ _ => d | _ => false)
     let stopLed := w0.apis.any fun a => a.inst == i && a.flagAtCall && (match a.kind with | .stopctx d _ _ _ => d | _ => false)
+    let nth := match w0.inst? i with | some x => if kind == OpKind.delete then x.stopDeletes + 1 else 0 | none => 0
+    let w0 := if kind == OpKind.delete then w0.updInst i fun x => { x with stopDeletes := x.stopDeletes + 1 } else w0
     let w := { w0 with ops := { id := op, inst := i, kind := kind, key := key, exp := exp, val := val, issued := e.t,
-                                inStopAtCall := stopDel, ledAtStop := stopLed } :: w0.ops }
+                                inStopAtCall := stopDel, ledAtStop := stopLed, deleteNth := nth } :: w0.ops }
     let w := match w.inst? i with
       | some x =>
         -- C09: no new store operation after a stop returned (until the next Start)
@@ -624,7 +629,9 @@ def step (m : MState) (e : TEv) : MState :=
       | some x =>
         match x.stopCalledSince with
         | some ts =>
-          if ts < p.issued ∧ x.stopsInProgress > 0 ∧ fn ≠ "StopWithContext" ∧ fn ≠ "Stop" then
+          -- (the stop call's own key deletion - whatever function of the library issues it - is not background activity:
+          --  whether it may delete what it deletes is C01's business)
+          if ts < p.issued ∧ x.stopsInProgress > 0 ∧ fn ≠ "StopWithContext" ∧ fn ≠ "Stop" ∧ p.kind ≠ OpKind.delete then
             { m with w := w0.setInst { x with opsDuringStop := (op, fn, p.issued) :: x.opsDuringStop } }
           else { m with w := w0 }
         | none => { m with w := w0 }
@@ -736,7 +743,7 @@ def step (m : MState) (e : TEv) : MState :=
       | .validate _ | .validateOrDemote _ => verifyTrack w
       | .stop | .stopctx _ _ _ _ => (match w.inst? i with | some x => earlyCancelled w x e.t | none => w).updInst i fun x =>
           let y := endTerm x
-          { y with stopsInProgress := x.stopsInProgress + 1, stopCalledSince := some e.t, graceDue := none, verifyOpen := none, claimDue := none }
+          { y with stopsInProgress := x.stopsInProgress + 1, stopCalledSince := some e.t, graceDue := none, verifyOpen := none, claimDue := none, stopDeletes := 0 }
     { m with w := w }
   | .apiRet n i r =>
     match w0.apis.find? (·.n = n), w0.inst? i with
